@@ -497,3 +497,64 @@ def c11_attach_ends(tier, rng):
                 "obligation": "C11.attach_ends_mirror", "inputs": {"seed": base + k}, "observed": p[:2],
                 "required": "start side = mirror image of end side", "replay_call": "contracts.c_equivariance:replay_attach_ends"}]}
     return {"cases": n * 40, "bound": "%d x 40 random tables" % n, "violations": [], "samples": [{"seed": base}]}
+
+
+# ---- trimming the ends of a novel model to its reads: the start side is the mirror image of the end side -------------------------------------------
+def _model_ends_mirror_problems(seed):
+    import random
+    import types
+    gm = native.repo_import("src/graph_based_model_construction.py")
+    gi = native.repo_import("src/gene_info.py")
+    rng = random.Random(seed)
+    L = 100000
+    problems = []
+    for _ in range(40):
+        d = rng.choice((10, 50))
+        exons = [(1000, 1400), (2000, 2300), (3000, 3600)][:rng.randint(2, 3)]
+        reads = []
+        for _k in range(rng.randint(1, 5)):
+            s_ = exons[0][0] + rng.choice([0, d, d + 1, 2 * d, 3 * d, 5 * d, -d, -d - 1, 380, 450])
+            e_ = exons[-1][1] - rng.choice([0, d, d + 1, 2 * d, 3 * d, 5 * d, -d, -d - 1, 380, 650])
+            reads.append([(s_, exons[0][1])] + exons[1:-1] + [(exons[-1][0], e_)])
+
+        def run(mirror):
+            mex = [((L - b, L - a) if mirror else (a, b)) for a, b in (reversed(exons) if mirror else exons)]
+            model = gi.TranscriptModel("chr1", "+", "t1", "g1", list(mex), gi.TranscriptModelType.novel_not_in_catalog)
+            rs = []
+            for r in reads:
+                rex = [((L - b, L - a) if mirror else (a, b)) for a, b in (reversed(r) if mirror else r)]
+                rs.append(types.SimpleNamespace(corrected_exons=rex, read_id="r"))
+            c = gm.GraphBasedModelConstructor.__new__(gm.GraphBasedModelConstructor)
+            c.params = types.SimpleNamespace(apa_delta=d)
+            c.correct_novel_transcript_ends(model, rs)
+            out = list(model.exon_blocks)
+            return [((L - b, L - a)) for a, b in reversed(out)] if mirror else out
+        a, b = run(False), run(True)
+        if a != b:
+            problems.append("apa_delta %d, model %s, reads starting at %s and ending at %s: trimmed to %s, the mirror image (mapped back) to %s"
+                            % (d, exons, [r[0][0] for r in reads], [r[-1][1] for r in reads], a, b))
+            break
+    return problems
+
+
+def replay_model_ends(d):
+    p = _model_ends_mirror_problems(d["inputs"]["seed"])
+    return (not p), "seed %s: %s" % (d["inputs"]["seed"], p[:1] or "start side mirrors end side")
+
+
+@bounded("C11.model_ends_mirror", ["C11", "C04"], note="the real GraphBasedModelConstructor.correct_novel_transcript_ends on random novel models (2-3 exons) and 1-5 "
+         "reads whose starts / ends lie at multiples of apa_delta inside or outside the model's terminal exons, against the mirror image: the trimmed "
+         "model is the mirror image of the trimmed mirror model (the rule for the 5' side is the reflected rule for the 3' side)")
+def c11_model_ends(tier, rng):
+    n = 50 if tier == "quick" else 2000
+    base = rng.randrange(10 ** 9)
+    for k in range(n):
+        try:
+            p = _model_ends_mirror_problems(base + k)
+        except Exception as e:
+            p = ["exception %s: %s" % (type(e).__name__, e)]
+        if p:
+            return {"cases": (k + 1) * 40, "bound": "random models", "violations": [{
+                "obligation": "C11.model_ends_mirror", "inputs": {"seed": base + k}, "observed": p[:2],
+                "required": "start side = mirror image of end side", "replay_call": "contracts.c_equivariance:replay_model_ends"}]}
+    return {"cases": n * 40, "bound": "%d x 40 random models" % n, "violations": [], "samples": [{"seed": base}]}
